@@ -22,6 +22,8 @@ import (
 const (
 	c15Idle   = 600 * time.Millisecond
 	c15Header = 350 * time.Millisecond
+	c15ShortIdle  = 250 * time.Millisecond // stack plain-shortidle
+	c15LongHeader = 700 * time.Millisecond
 	c15TLS    = 450 * time.Millisecond
 	c15PP     = 250 * time.Millisecond
 	c15Slack  = 3 * time.Second
@@ -50,6 +52,8 @@ func stallPoints(stack string) []string {
 		return append([]string{"pp-nothing", "pp-k", "tls-nothing", "tls-hello-k"}, post...)
 	case "mitm":
 		return append([]string{"mitm-nothing", "mitm-hello-k", "mitm-hello-k"}, post...)
+	case "plain-shortidle":
+		return []string{"head-k", "head-k", "head-two-parts", "second-head-k", "pipelined-head-k", "nothing", "between"}
 	case "plain-longidle":
 		// idle-timeout 2.5 s: tells a read-header-timeout that is really applied from one that is
 		// replaced by the idle deadline (limit + 1.5 s < idle)
@@ -59,7 +63,7 @@ func stallPoints(stack string) []string {
 }
 
 func genC15(t *rapid.T) C15Case {
-	c := C15Case{Stack: rapid.SampledFrom([]string{"plain", "plain-longidle", "tls", "pp", "pp", "pp+tls", "mitm"}).Draw(t, "stack")}
+	c := C15Case{Stack: rapid.SampledFrom([]string{"plain", "plain-longidle", "plain-shortidle", "tls", "pp", "pp", "pp+tls", "mitm"}).Draw(t, "stack")}
 	n := rapid.SampledFrom([]int{1, 1, 2, 3, 5, 10, 40}).Draw(t, "nstalled")
 	pts := stallPoints(c.Stack)
 	if rapid.IntRange(0, 3).Draw(t, "crowd") == 0 {
@@ -152,7 +156,10 @@ func getEnv15() (*c15Env, error) {
 		mk("plain", ProxyOpts{})
 		base.IdleTimeout = 2500 * time.Millisecond
 		mk("plain-longidle", ProxyOpts{})
-		base.IdleTimeout = c15Idle
+		// the reverse order of the two limits: an idle timeout shorter than the read-header timeout
+		base.IdleTimeout, base.ReadHeaderTimeout = c15ShortIdle, c15LongHeader
+		mk("plain-shortidle", ProxyOpts{})
+		base.IdleTimeout, base.ReadHeaderTimeout = c15Idle, c15Header
 		mk("tls", ProxyOpts{ListenerTLS: true})
 		mk("pp", ProxyOpts{ProxyProtocol: pp})
 		mk("pp+tls", ProxyOpts{ProxyProtocol: pp, ListenerTLS: true})
@@ -196,6 +203,10 @@ func (e *c15Env) stall(stack string, s C15Stall, vid string) (r stallResult) {
 	defer tc.Close()
 	var conn net.Conn = tc
 	r.ref = tConnect
+	idleLimit, headerLimit := c15Idle, c15Header
+	if stack == "plain-shortidle" {
+		idleLimit, headerLimit = c15ShortIdle, c15LongHeader
+	}
 	hasPP := strings.HasPrefix(stack, "pp")
 	hasTLS := strings.HasSuffix(stack, "tls")
 	send := func(b []byte) { conn.Write(b) }
@@ -310,24 +321,24 @@ func (e *c15Env) stall(stack string, s C15Stall, vid string) (r stallResult) {
 	head := fmt.Sprintf("GET %s HTTP/1.1\r\nHost: %s\r\nX-Vid: %s\r\nX-Filler: %s\r\n\r\n", target, host, vid, strings.Repeat("f", 150))
 	switch s.Point {
 	case "nothing":
-		r.limit, r.name = c15Idle, "idle-timeout (no request yet)"
+		r.limit, r.name = idleLimit, "idle-timeout (no request yet)"
 		wait()
 	case "head-k":
-		r.limit, r.name = c15Header, "read-header-timeout"
+		r.limit, r.name = headerLimit, "read-header-timeout"
 		r.ref = time.Now()
 		send([]byte(head[:clampK(len(head)-1)]))
 		wait()
 	case "head-two-parts":
 		// progress inside the head does not restart the clock: it runs from the first byte
-		r.limit, r.name = c15Header, "read-header-timeout (head sent in two parts)"
+		r.limit, r.name = headerLimit, "read-header-timeout (head sent in two parts)"
 		r.ref = time.Now()
 		k := clampK(len(head) - 2)
 		send([]byte(head[:k]))
-		time.Sleep(c15Header / 3)
+		time.Sleep(headerLimit / 3)
 		send([]byte(head[k : k+1]))
 		wait()
 	case "between":
-		r.limit, r.name = c15Idle, "idle-timeout (between requests)"
+		r.limit, r.name = idleLimit, "idle-timeout (between requests)"
 		r.ref = time.Now()
 		send([]byte(head))
 		br := bufio.NewReader(conn)
@@ -346,14 +357,14 @@ func (e *c15Env) stall(stack string, s C15Stall, vid string) (r stallResult) {
 			r.setup = fmt.Errorf("exchange before the second head: %v", err)
 			return
 		}
-		r.limit, r.name = c15Header, "read-header-timeout (second request of the connection)"
+		r.limit, r.name = headerLimit, "read-header-timeout (second request of the connection)"
 		r.ref = time.Now()
 		send([]byte(head[:clampK(len(head)-1)]))
 		wait()
 	case "pipelined-head-k":
 		// a complete request and the first k bytes of the next head in one segment: the partial head is already
 		// buffered when the proxy turns to it, and the client never finishes it
-		r.limit, r.name = c15Header, "read-header-timeout (partial head pipelined behind a complete request)"
+		r.limit, r.name = headerLimit, "read-header-timeout (partial head pipelined behind a complete request)"
 		r.ref = time.Now()
 		send([]byte(head + head[:clampK(len(head)-1)]))
 		wait()
@@ -468,6 +479,8 @@ func runC15once(c C15Case) (fails []vstat.Failure) {
 	minLimit := c15Idle
 	if strings.HasPrefix(c.Stack, "pp") {
 		minLimit = c15PP
+	} else if c.Stack == "plain-shortidle" {
+		minLimit = c15ShortIdle
 	} else if c.Stack != "plain" {
 		minLimit = c15Header
 	}
